@@ -279,12 +279,28 @@ impl<Front: SocketHandler> ExpectProxyProtocol<Front> {
 
     pub fn into_pipe(
         self,
-        front_buf: Checkout,
+        mut front_buf: Checkout,
         back_buf: Checkout,
         backend_socket: Option<TcpStream>,
         backend_token: Option<Token>,
         listener: Rc<RefCell<TcpListener>>,
     ) -> Pipe<Front, TcpListener> {
+        // The staging window (28/52/232 bytes) can be larger than the header
+        // that completed it: a 16-byte LOCAL/UNSPEC header, a header followed
+        // by TLVs shorter than the window, or any header with payload behind
+        // it in the same segment. Whatever was read past the header belongs
+        // to the client stream and must reach the backend: move it into the
+        // pipe's frontend buffer instead of dropping it with the window.
+        if let Ok((rest, _)) = parse_v2_header(&self.frontend_buffer[..self.index]) {
+            let n = rest.len().min(front_buf.available_space());
+            debug_assert_eq!(
+                n,
+                rest.len(),
+                "the pipe's frontend buffer must hold the bytes read past the header"
+            );
+            front_buf.space()[..n].copy_from_slice(&rest[..n]);
+            front_buf.fill(n);
+        }
         // Prefer the source address parsed from the PROXY-v2 header over
         // the TCP `peer_addr` so the pipe phase records the real client
         // — `peer_addr` here is the upstream PROXY-emitter (an LB / edge
